@@ -14,7 +14,7 @@ ASSUMPTIONS = [
     "ENETUNREACH / EHOSTUNREACH (X-Warning 301) and descriptor exhaustion cannot be provoked in this sandbox: the 301 arm is covered by the model, the regenerated table fact and io_to_connection_error's shape only",
     "a response is counted at the client: one response head per HTTP/1.1 connection / one HEADERS frame per HTTP/2 stream",
 ]
-RULE = ("requests: CONNECT / GET / POST / PUT x authorities {canary ip:port, name:port, closed port, full-backlog listener, unresolvable name, private literal, loopback literal, "
+RULE = ("requests: CONNECT / GET / POST / PUT x authorities {canary ip:port, name:port, closed port, full-backlog listener, unresolvable name, private literal, loopback literal, IPv6 literals without a port, "
         "name without port, _check, _udp2, _icmp (with and without an ICMP forwarder set up), _CHECK, _check:0, _udp2x, x_udp2, absolute URIs on reserved names} x private connections allowed/disallowed x "
         "HTTP/1.1 / HTTP/2 x credentials valid / absent; non-trivial = every case; distinct = distinct session")
 
@@ -43,6 +43,10 @@ def targets(private_allowed):
         ("get-on-check", 6, b"http://_check/", b"", 0), ("post-on-udp", 7, b"http://_udp2/x", b"d", 0), ("put-on-icmp", 8, b"http://_icmp/", b"d", 0),
         ("get-private", 6, b"http://10.1.2.3/x", b"", 1 if private_allowed else 3),
     ]
+    if not private_allowed:
+        # IPv6 literals without a port (default 80): the policy refusals apply to them as to `[::1]:80` (with private connections allowed
+        # the outcome would depend on the sandbox having an IPv6 loopback, so they are only asked for where no connect is made)
+        t += [("get-loopback-v6-literal", 6, b"http://[::1]/x", b"", 4), ("get-private-v6-literal", 6, b"http://[fd00::1]/x", b"", 3)]
     return t
 
 
